@@ -32,7 +32,7 @@ def run(ctx):
         ctx, so.c03, ['sched', 'mixed'], nontrivial,
         witnesses=['duplicate-flight'],
         rule='random engines x random histories biased to re-requesting units that are queued or in flight, replies in any order; corpus of directed scenarios first. Non-trivial = a unit was (re)requested while released or in flight, or two replies for the same job were delivered')
-    if not ctx.replay:
+    if not ctx.replay and not ctx.nviol:
         sc.fault_study(ctx, so.c03)
 
 
